@@ -19,7 +19,7 @@ import (
 func TestMain(m *testing.M) { hx.Main(m) }
 
 type spec struct {
-	Kind   string `json:"kind"` // mix | cap | nogrowth | reset | syncfail | pairbusy | capfine | realrestart | flakypeer | aged
+	Kind   string `json:"kind"` // mix | cap | nogrowth | reset | syncfail | pairbusy | capfine | realrestart | flakypeer | aged | multi
 	Proto  string `json:"proto"`
 	RMs    int    `json:"reconnect_ms"`
 	MaxMs  int    `json:"max_ms"`
@@ -145,6 +145,9 @@ func TestC14(t *testing.T) {
 		cases = append(cases, mon.CaseSpec{Name: "aged", Spec: sp})
 	}
 	cases = append(cases, ploss...)
+	// multi (multi_test.go): a socket that owns several dialers, one of which the application closes
+	// before it closes the socket.  Appended last: the indices of the cases above do not depend on it.
+	cases = append(cases, multiSpecs(rnd, r.Pick(30, 900))...)
 	r.Run(cases, func(c *mon.Case) {
 		sp := c.Spec.(spec)
 		if sp.Kind == "flakypeer" {
@@ -162,6 +165,15 @@ func TestC14(t *testing.T) {
 				defer hx.SetYields(0, nil)
 			}
 			runAged(c, sp)
+			return
+		}
+		if sp.Kind == "multi" {
+			if sp.Yield {
+				hx.SetYields(c.Rand.Int63(), &hx.YieldCfg{ProbGosched: 0.25, ProbSleep: 0.15, MaxSleep: 300 * time.Microsecond})
+				defer hx.SetYields(0, nil)
+			}
+			runMulti(c, sp)
+			c.Sig("multi|%s|%d|%d|%v|%s", sp.Proto, sp.RMs, sp.MaxMs, sp.Async, sp.Script)
 			return
 		}
 		if sp.Kind == "realrestart" {
